@@ -139,7 +139,7 @@ def global_header_oracle(o):
     ]
 
 
-def match_writer(ctx, rule, fi, items, oracle, path="Header", loopvar=None):
+def match_writer(ctx, rule, fi, items, oracle, path="Header", loopvar=None, loopvars=()):
     site = fi.site
     if len(items) != len(oracle):
         names = [o.slot if isinstance(o, Spec) else f"REP:{o[1]}" for o in oracle]
@@ -185,15 +185,20 @@ def match_writer(ctx, rule, fi, items, oracle, path="Header", loopvar=None):
                 continue
             counts = {count} if isinstance(count, str) else set(count)
             ok = it.count in counts and (over is None or it.over in ({over} if isinstance(over, str) else set(over)))
-            # the length of a run-time element (zip / min(len(..)) of loop elements) is not a static quantity
-            elementwise = (it.count.startswith("zip(") or "min(len(" in it.count) and not any(
-                c.startswith("zip(") or "min(len(" in c for c in counts)
+            # the length of a run-time element (zip / min(len(..)) of loop elements, len of a loop variable, len of a
+            # slice) is not a static quantity
+            ml = re.fullmatch(r"len\((.+)\)", it.count)
+            larg = ml.group(1) if ml else None
+            elementwise = (it.count.startswith("zip(") or "min(len(" in it.count or
+                           (larg is not None and (larg in loopvars or re.search(r"\[[^\[\]]*:[^\[\]]*\]$", larg)))) \
+                and it.count not in counts
             ctx.decide(ok, not elementwise, rule, site, f"{path}: block repeated {sorted(counts)[0]} times",
                       f"{path}: block is written {it.count} times (over {it.over}); the reader repeats it "
                       f"{sorted(counts)} times", key=f"count:{path}/{sorted(counts)[0]}", where=loc(fi, it.node))
             ok_all &= ok
             ok_all &= match_writer(ctx, rule, fi, it.body, body, path + "/" + sorted(counts)[0],
-                                   loopvar=getattr(it, "var", None))
+                                   loopvar=getattr(it, "var", None),
+                                   loopvars=tuple(loopvars) + ((getattr(it, "var", None),) if getattr(it, "var", None) else ()))
     return ok_all
 
 
@@ -203,6 +208,7 @@ def domain_tuple_rule(ctx, rule, fi, ndims_attr="self.ndims", gs="self.grid_size
     n_ok = 0
     bad = []
     cands = []
+    unres = []
     for n in walk_no_nested(fi.node):
         # the tuple template is recognised by its content (an f-string that opens `((0`), wherever it is written:
         # bound to a local, appended directly, or inside a comprehension
@@ -227,6 +233,8 @@ def domain_tuple_rule(ctx, rule, fi, ndims_attr="self.ndims", gs="self.grid_size
                 if m[0] == "ph":
                     # sizes = ",".join(str(s - 1) for s in grid_sizes[lv])
                     sz = env.get(m[1]) if m[1] in env else None
+                    if sz is None and "[" not in m[1] and "." not in m[1]:
+                        unres.append(m[1])      # a name this rule cannot follow (comprehension / loop variable)
                     if sz is not None:
                         sp = grammar.template(sz, env)
                         if len(sp) == 1 and not isinstance(sp[0], str) and sp[0][0] == "join" and sp[0][1] == "," \
@@ -243,9 +251,11 @@ def domain_tuple_rule(ctx, rule, fi, ndims_attr="self.ndims", gs="self.grid_size
                 n_ok += 1
             else:
                 bad.append(f"{t0} {toks[1].show()} {t2}")
-    ctx.check(n_ok >= 1 and not bad, rule, fi.site,
-              "domain tuple per level is ((0,..) (grid_size-1,..) (0,..)) — the reader takes every third token from "
-              "the second and adds 1",
+    # no f-string template that opens `((0` at all: the tuple is built another way (concatenation, format) that this
+    # rule cannot read — undecided, not wrong
+    ctx.decide(n_ok >= 1 and not bad, bool(cands) and not unres, rule, fi.site,
+               "domain tuple per level is ((0,..) (grid_size-1,..) (0,..)) — the reader takes every third token from "
+               "the second and adds 1",
               f"domain tuple template(s) {bad or 'not found'} are not ((0,..) (grid_size - 1,..) (0,..))",
               key="domain-tuple")
 
